@@ -222,7 +222,26 @@ def m_poll_map(e, st, fr, t, args):
     pv, f = args
     d = e.discriminant_of(st, pv).v
     x = e.get_field(pv, ('v', 'Ready', 0))
+    body, clo = closure_body_of(e, st, f)
+    if body is not None:
+        if not isinstance(d, int):
+            raise Unsupported("Poll::map with a closure on a symbolic Poll")
+        if d == 1:
+            return VAgg(name='Poll', vname='Pending', disc=1)
+        co = st.alloc(clo)
+        st.meta['conts'] = st.meta.get('conts', []) + [('wrap_ready', (t.dest, t.target))]
+        first = VRef(('obj', co), (), True) if body.arg_types[0].startswith('&') else clo
+        e.push_call(st, body, [first, x], ret_dest=None, ret_bb=-1, unwind_bb=t.unwind, tag='cont')
+        return None
     return VAgg(name='Poll', disc=d, fields={('v', 'Ready', 0): apply_fn_item(e, st, f, x)})
+
+
+def c_wrap_ready(e, st, data, rv):
+    dest, target = data
+    f = st.frames[-1]
+    e.write_place(st, f, dest, VAgg(name='Poll', vname='Ready', disc=0, fields={('v', 'Ready', 0): rv}))
+    f.bb = target
+    return None
 
 
 # ---- slices / arrays (select!'s shuffle + iteration) ----------------------------------------------
@@ -377,11 +396,14 @@ def m_option_filter(e, st, fr, t, args):
 
 def install_common(eng: Engine):
     eng.conts['poll_result'] = c_poll_result
+    eng.conts['wrap_ready'] = c_wrap_ready
     M = eng.models
     M.append((R(r'<Level as PartialOrd<LevelFilter>>::le'), m_false))
     M.append((R(r'IntoFuture>::into_future$'), m_ident))
     M.append((R(r'^Pin::<.*>::new_unchecked$'), m_ident))
     M.append((R(r'^Pin::<.*>::new$'), m_ident))
+    M.append((R(r'^Pin::<.*>::(get_mut|get_unchecked_mut|into_inner|get_ref)$'), lambda e, st, fr, t, a: _target_of_pin(e, st, a[0])))
+    M.append((R(r'^Pin::<.*>::as_mut$'), lambda e, st, fr, t, a: _target_of_pin(e, st, _load(e, st, a[0]) if isinstance(a[0], VRef) else a[0])))
     M.append((R(r'^<Pin<.*> as Deref(Mut)?>::deref(_mut)?$'), lambda e, st, fr, t, a: NotImplemented))
     M.append((R(r' as Try>::branch$'), m_try_branch))
     M.append((R(r' as FromResidual<.*>>::from_residual$'), m_from_residual))
